@@ -89,7 +89,9 @@ def run_case(case, ctx):
     def fresh_args():
         return tuple(dict(a) if isinstance(a, dict) else a for a in args), dict(kw)
     a1, k1 = fresh_args()
+    keep1 = [dict(a) if isinstance(a, dict) else a for a in a1]
     st, inc = ctx.call(d.inc, *a1, **k1)
+    ctx.check('operands_unchanged', all((not isinstance(a, dict)) or (list(a.keys()) == list(b.keys()) and all(a[k] is b[k] or a[k] == b[k] or (a[k] != a[k]) for k in a)) for a, b in zip(a1, keep1)), lambda: 'inc edited the filter dict it was given: %r' % (a1,))
     a2, k2 = fresh_args()
     st2, exc = ctx.call(d.exc, *a2, **k2)
     if st != 'ok' or st2 != 'ok':
